@@ -18,7 +18,7 @@ META = {
     "trigger history, pre-reset trigger 0), c30_table (predicate written out for all eight settings), c30_get_data, "
     "c30_put_next_cycle/c30_put_initial, c30_run are proved for every history, every cycle and all eight configurations; "
     "the model is tied to the code by cycle-exact comparison of ready, done, returned data and the data port for all "
-    "eight settings x both components x several layouts over directed and random histories "
+    "eight settings x both components x several layouts (incl. the zero-width layout) over directed and random histories "
     "(thorough: every trigger history up to length 7)",
     "level_note": "trusted: Lean kernel, axioms propext/Quot.sound; Amaranth semantics and pysim; the harness glue. "
     "Data is the flattened layout value (layout handling is C40/C41). OutputBuffer declares its `data` port with "
@@ -26,12 +26,13 @@ META = {
 }
 
 LAYOUTS = {
+    "w0": [],  # zero-width layout: pure-event use (docs/_code/rpn.py: InputSampler([], synchronize=True, ...))
     "w1": [("d", 1)],
     "w5": [("d", 5)],
     "a3b2": [("a", 3), ("b", 2)],
     "w8": [("d", 8)],
 }
-WIDTH = {"w1": 1, "w5": 5, "a3b2": 5, "w8": 8}
+WIDTH = {"w0": 0, "w1": 1, "w5": 5, "a3b2": 5, "w8": 8}
 
 _sims: dict[tuple, CompSim] = {}
 
@@ -154,7 +155,7 @@ def _trig_patterns(rng, n):
 def gen_cases(ctx: Check) -> list[Case]:
     rng = ctx.rng("gen")
     cases = []
-    lays = ctx.pick(["w1", "a3b2", "w8"], ["w1", "w5", "a3b2", "w8"])
+    lays = ctx.pick(["w0", "w1", "a3b2", "w8"], ["w0", "w1", "w5", "a3b2", "w8"])
     n = ctx.pick(120, 600)
     for comp, edge, pol, sync in itertools.product(("in", "out"), (0, 1), (0, 1), (0, 1)):
         for lay in lays:
